@@ -362,6 +362,23 @@ class Check:
         return bad
 
     # ---- verdicts
+    def run_fixed(self, scenarios: dict) -> int:
+        """fixed scenarios of harness/impl/impl_fixed.py ({name: signature}) on both backends: direct restatements
+        of one clause on the implementation, for situations generated histories cannot reach"""
+        n = 0
+        for be in ("asyncio", "trio"):
+            r = self.run_impl("impl_fixed.py", [{"scenarios": list(scenarios), "backend": be}])[0]
+            if "results" not in r:
+                self.broke("impl-runner", r)
+                continue
+            for res in r["results"]:
+                n += 1
+                if not res["ok"]:
+                    self.fail_input(scenarios[res["name"]], f"{res['name']} ({be}): {res['detail']}",
+                                    {"fixed_scenario": res["name"], "backend": be})
+        self.coverage["fixed_scenarios"] = self.coverage.get("fixed_scenarios", 0) + n
+        return n
+
     def fail_input(self, signature: str, what: str, replay: dict):
         """A concrete input/history/schedule on which the implementation violates the property."""
         self.failures.append({"signature": signature, "what": what, "replay": replay})
@@ -471,7 +488,14 @@ def main():
     mod = importlib.import_module(f"harness.props.{a.pid.lower()}")
     ck = Check(a.pid, tier, seed)
     if a.replay:
-        sys.exit(mod.replay(ck, json.loads(Path(a.replay).read_text())))
+        obj = json.loads(Path(a.replay).read_text())
+        rp = obj.get("replay")
+        if isinstance(rp, dict) and "fixed_scenario" in rp:
+            r = ck.run_impl("impl_fixed.py", [{"scenarios": [rp["fixed_scenario"]], "backend": rp["backend"]}])[0]
+            res = (r.get("results") or [{"ok": False, "detail": str(r)[:400]}])[0]
+            print(rp["fixed_scenario"], "on", rp["backend"], "->", "holds" if res["ok"] else "FAILS", "-", res["detail"])
+            sys.exit(0 if res["ok"] else 1)
+        sys.exit(mod.replay(ck, obj))
     try:
         mod.run(ck)
     except Exception as e:  # a crashing check must not pass silently
